@@ -99,6 +99,10 @@ func runMultiMount(t *tape.Tape, cfg sim.Config) (res sim.Result) {
 		for n := t.Range(1, 3); n > 0; n-- {
 			ops = append(ops, cliOp{kind: t.Choose(7), name: tape.Pick(t, names), fd: fd})
 		}
+		// a hard link from under this pre-open to under another one, then a write through the new name
+		if t.Chance(1, 2) {
+			ops = append(ops, cliOp{kind: 7, name: tape.Pick(t, []string{"a", "d1/b"}), fd: fd, fd2: 3 + int32(t.Choose(6))})
+		}
 	}
 	var rc wazero.RuntimeConfig
 	if cfg.Engine == "interpreter" {
